@@ -18,7 +18,7 @@ Definition room (tt fmt : list str) (s : state) (T : xtree) : Prop :=
 Lemma ext_nonempty : forall s s', ext s s' -> p2t s <> [] -> p2t s' <> [].
 Proof.
   intros s s' (_ & X & _) H. destruct (p2t s) as [|[c [[e ty] cl]] r] eqn:E; [congruence|].
-  destruct (X c e ty cl) as [e' H']; [rewrite E; cbn; rewrite N.eqb_refl; reflexivity|].
+  destruct (X c e ty cl) as [e' H']; [try rewrite E; cbn; rewrite N.eqb_refl; reflexivity|].
   intro Z. rewrite Z in H'. discriminate.
 Qed.
 
@@ -41,4 +41,224 @@ Proof.
   destruct fuel as [|f]; [lia|].
   destruct (PB f false D ltac:(lia)) as (T2 & U & EQ).
   exists T2. unfold undo_tree_fuel. rewrite U. cbn [bind fst]. split; [reflexivity | exact EQ].
+Qed.
+
+(* ------------------------------------------------ which states are in scope *)
+(* get_placeholder is not meant to be called from outside; if it is, filing a
+   T_OPEN entry whose element has children takes the maker out of scope (the
+   children would be duplicated by undo). *)
+Definition safe_op (o : op) : Prop :=
+  match o with
+  | OpGet el TOpen _ => xkids el = []
+  | _ => True
+  end.
+
+Lemma good_empty : forall tt fmt, good tt fmt (mkst [] [] PLACEHOLDER_START).
+Proof. intros tt fmt c e ty cl k H. discriminate. Qed.
+
+Lemma gp_wf : forall tt fmt s el ty cl s' c m,
+  gp s el el ty cl = (s', c, m) -> ph_inv s -> good tt fmt s -> (ty = TOpen -> xkids el = []) ->
+  ph_inv s' /\ good tt fmt s' /\ ext s s'.
+Proof.
+  intros tt fmt s el ty cl s' c m G I GD K. destruct (gp_ok _ _ _ _ _ _ _ _ G I) as [I' X].
+  split; [exact I'|]. split; [|exact X]. eapply gp_good; eauto.
+  destruct ty; cbn; auto.
+Qed.
+
+Lemma init_pair_wf : forall tt fmt s name, ph_inv s -> good tt fmt s ->
+  ph_inv (init_pair s name) /\ good tt fmt (init_pair s name).
+Proof.
+  intros tt fmt s name I G. unfold init_pair.
+  destruct (gp s _ _ TClose None) as [[s1 c] m1] eqn:G1.
+  destruct (gp s1 _ _ TOpen (Some c)) as [[s2 c2] m2] eqn:G2.
+  destruct (gp_wf tt fmt _ _ _ _ _ _ _ G1 I G ltac:(discriminate)) as (I1 & GD1 & _).
+  destruct (gp_wf tt fmt _ _ _ _ _ _ _ G2 I1 GD1 ltac:(reflexivity)) as (I2 & GD2 & _). auto.
+Qed.
+
+Lemma ph_wf_init : forall tt fmt, ph_wf tt fmt ph_init.
+Proof.
+  intros tt fmt. unfold ph_init.
+  destruct (init_pair_wf tt fmt _ s_insert ph_inv_empty (good_empty tt fmt)) as [I1 G1].
+  destruct (init_pair_wf tt fmt _ s_delete I1 G1) as [I2 G2].
+  destruct (init_pair_wf tt fmt _ s_replace I2 G2) as [I3 G3].
+  split; [exact I3|]. split; [exact G3|]. vm_compute. discriminate.
+Qed.
+
+Lemma entry_open_childless : forall tt fmt s ph e cl,
+  ph_inv s -> good tt fmt s -> p2t_get (p2t s) ph = Some (e, TOpen, cl) -> xkids e = [].
+Proof.
+  intros tt fmt s ph e cl ((_ & I2) & _) G P. destruct (I2 _ _ _ _ P) as [k L].
+  exact (proj1 (G _ _ _ _ _ P L)).
+Qed.
+
+Lemma mark_diff_wf : forall tt fmt s ph a at_ s' c,
+  mark_diff fmt s ph a at_ = Ok (s', c) -> ph_wf tt fmt s -> ph_wf tt fmt s'.
+Proof.
+  intros tt fmt s ph a at_ s' c E (I & G & N). unfold mark_diff in E.
+  destruct (p2t_get (p2t s) ph) as [[[el ty] cl]|] eqn:P; [|discriminate].
+  destruct ty.
+  - destruct (gp s _ _ TOpen cl) as [[s1 c1] m] eqn:G1. inversion E; subst.
+    destruct (gp_wf tt fmt _ _ _ _ _ _ _ G1 I G) as (I1 & GD1 & X1).
+    { intros _. cbn [with_attrs xkids]. eapply entry_open_childless; eauto. }
+    split; [exact I1|]. split; [exact GD1|]. eapply ext_nonempty; eauto.
+  - inversion E; subst. split; auto.
+  - destruct (gp s _ _ TSingle cl) as [[s1 c1] m] eqn:G1. inversion E; subst.
+    destruct (gp_wf tt fmt _ _ _ _ _ _ _ G1 I G ltac:(discriminate)) as (I1 & GD1 & X1).
+    split; [exact I1|]. split; [exact GD1|]. eapply ext_nonempty; eauto.
+Qed.
+
+Lemma wrap_diff_wf : forall tt fmt s x a at_ s' r,
+  wrap_diff s x a at_ = Ok (s', r) -> ph_wf tt fmt s -> ph_wf tt fmt s'.
+Proof.
+  intros tt fmt s x a at_ s' r E (I & G & N). unfold wrap_diff in E. destruct (diff_tags a) as [open_ph close_ph].
+  destruct at_ as [|kv at_]; [inversion E; subst; split; auto|].
+  destruct (p2t_get (p2t s) open_ph) as [[[el ty] cl]|] eqn:P; [|discriminate].
+  destruct (gp s _ _ ty cl) as [[s1 c1] m] eqn:G1. inversion E; subst.
+  destruct (gp_wf tt fmt _ _ _ _ _ _ _ G1 I G) as (I1 & GD1 & X1).
+  { intros ->. cbn [with_attrs xkids]. eapply entry_open_childless; eauto. }
+  split; [exact I1|]. split; [exact GD1|]. eapply ext_nonempty; eauto.
+Qed.
+
+Lemma ph_step_wf : forall tt fmt s o, safe_op o -> ph_wf tt fmt s -> ph_wf tt fmt (ph_step tt fmt s o).
+Proof.
+  intros tt fmt s o SO W. destruct o as [el ty cl|ph a at_|x a at_|T]; cbn [ph_step].
+  - destruct W as (I & G & N). unfold get_placeholder. destruct (gp s el el ty cl) as [[s1 c1] m] eqn:G1. cbn [fst].
+    destruct (gp_wf tt fmt _ _ _ _ _ _ _ G1 I G) as (I1 & GD1 & X1).
+    { intros ->. exact SO. }
+    split; [exact I1|]. split; [exact GD1|]. eapply ext_nonempty; eauto.
+  - destruct (mark_diff fmt s ph a at_) as [[s' c]|e] eqn:E; [eapply mark_diff_wf; eauto | exact W].
+  - destruct (wrap_diff s x a at_) as [[s' c]|e] eqn:E; [eapply wrap_diff_wf; eauto | exact W].
+  - apply do_tree_wf. exact W.
+Qed.
+
+Theorem wf_reachable : forall tt fmt ops, Forall safe_op ops -> ph_wf tt fmt (fold_left (ph_step tt fmt) ops ph_init).
+Proof.
+  intros tt fmt ops. generalize (ph_wf_init tt fmt). generalize ph_init.
+  induction ops as [|o ops IH]; intros s W FO; cbn [fold_left]; [exact W|].
+  inversion FO; subst. apply IH; [apply ph_step_wf; assumption | assumption].
+Qed.
+
+(* ------------------------------------------------------ fuel is only fuel *)
+Definition ubody (s : state) (U : bool -> xtree -> res (xtree * list xtree)) (has_parent : bool) (e : xtree)
+  : res (xtree * list xtree) :=
+  match p2t s with
+  | [] => Ok (e, [])
+  | _ :: _ =>
+    let ustr (x : str) : res (str * list xtree) :=
+      let segs := split_string s x in
+      us_loop s (fun el => bind (U false el) (fun r => Ok (fst r))) (S (length segs)) segs [] [] in
+    let ucontent (cs : list xtree) : res (list xtree) :=
+      mapM (fun c => bind (U true c) (fun r => Ok (fst r))) cs in
+    let '(XNode tag attrs text tail kids) := e in
+    bind (match otxt text with
+          | [] => Ok (text, kids)
+          | _ :: _ =>
+            bind (ustr (otxt text)) (fun '(rt, cs) =>
+              if str_eqb (otxt text) rt then Ok (text, kids)
+              else bind (ucontent cs) (fun cs' => Ok (ornone rt, cs' ++ kids)))
+          end) (fun '(text1, kids1) =>
+    bind (mapM (fun c => bind (U true c) (fun r => Ok (fst r :: snd r))) kids1) (fun kk =>
+    let kids2 := concat kk in
+    match tail with
+    | [] => Ok (XNode tag attrs text1 tail kids2, [])
+    | _ :: _ =>
+      bind (ustr tail) (fun '(rt, cs) =>
+        if str_eqb tail rt then Ok (XNode tag attrs text1 tail kids2, [])
+        else if has_parent
+             then bind (ucontent cs) (fun cs' => Ok (XNode tag attrs text1 rt kids2, cs'))
+             else Err ENoParent)
+    end))
+  end.
+
+Lemma undo_element_body : forall f s hp e, undo_element (S f) s hp e = ubody s (undo_element f s) hp e.
+Proof. reflexivity. Qed.
+
+Lemma bind_ok_inv : forall (A B : Type) (m : res A) (k : A -> res B) r,
+  bind m k = Ok r -> exists a, m = Ok a /\ k a = Ok r.
+Proof. intros A B [a|e] k r H; cbn in H; [eauto | discriminate]. Qed.
+
+Lemma mapM_mono : forall (A B : Type) (f g : A -> res B) l r,
+  (forall a b, f a = Ok b -> g a = Ok b) -> mapM f l = Ok r -> mapM g l = Ok r.
+Proof.
+  intros A B f g l. induction l as [|a l IH]; intros r M H; cbn [mapM] in *; [exact H|].
+  apply bind_ok_inv in H. destruct H as (b & Hb & H). apply bind_ok_inv in H. destruct H as (r' & Hr & H).
+  rewrite (M _ _ Hb). cbn [bind]. rewrite (IH _ M Hr). exact H.
+Qed.
+
+Lemma us_loop_mono : forall s (uel uel' : xtree -> res xtree),
+  (forall a b, uel a = Ok b -> uel' a = Ok b) ->
+  forall n segs rtext acc r, us_loop s uel n segs rtext acc = Ok r -> us_loop s uel' n segs rtext acc = Ok r.
+Proof.
+  intros s uel uel' M. induction n as [|n IH]; intros segs rtext acc r H; destruct segs as [|sg rest]; cbn [us_loop] in *;
+    try exact H.
+  destruct sg as [|c sg']; [apply IH; exact H|].
+  destruct (match sg' with [] => p2t_get (p2t s) c | _ :: _ => None end) as [[[el ty] cl]|].
+  - destruct ty.
+    + destruct (take_until cl rest []) as [[nt rest']|]; [|exact H].
+      apply bind_ok_inv in H. destruct H as (e' & He & H). rewrite (M _ _ He). cbn [bind]. apply IH. exact H.
+    + apply bind_ok_inv in H. destruct H as (e' & He & H). rewrite (M _ _ He). cbn [bind]. apply IH. exact H.
+    + apply bind_ok_inv in H. destruct H as (e' & He & H). rewrite (M _ _ He). cbn [bind]. apply IH. exact H.
+  - destruct acc; apply IH; exact H.
+Qed.
+
+Lemma ubody_mono : forall s (U U' : bool -> xtree -> res (xtree * list xtree)),
+  (forall b x r, U b x = Ok r -> U' b x = Ok r) ->
+  forall hp e r, ubody s U hp e = Ok r -> ubody s U' hp e = Ok r.
+Proof.
+  intros s U U' M hp e r H. unfold ubody in *. destruct (p2t s) as [|p0 pr]; [exact H|].
+  destruct e as [tag attrs text tail kids].
+  assert (M1 : forall b a x, bind (U b a) (fun r => Ok (fst r)) = Ok x -> bind (U' b a) (fun r => Ok (fst r)) = Ok x).
+  { intros b a x Hx. apply bind_ok_inv in Hx. destruct Hx as (y & Hy & Hx). rewrite (M _ _ _ Hy). exact Hx. }
+  assert (M2 : forall a x, bind (U true a) (fun r => Ok (fst r :: snd r)) = Ok x ->
+                           bind (U' true a) (fun r => Ok (fst r :: snd r)) = Ok x).
+  { intros a x Hx. apply bind_ok_inv in Hx. destruct Hx as (y & Hy & Hx). rewrite (M _ _ _ Hy). exact Hx. }
+  assert (MS : forall x y,
+     us_loop s (fun el => bind (U false el) (fun r => Ok (fst r))) (S (length (split_string s x))) (split_string s x) [] [] = Ok y ->
+     us_loop s (fun el => bind (U' false el) (fun r => Ok (fst r))) (S (length (split_string s x))) (split_string s x) [] [] = Ok y).
+  { intros x y. apply us_loop_mono. intros a b. apply M1. }
+  cbv zeta in *.
+  apply bind_ok_inv in H. destruct H as ([text1 kids1] & H1 & H).
+  assert (H1' : match otxt text with
+          | [] => Ok (text, kids)
+          | _ :: _ =>
+            bind (us_loop s (fun el => bind (U' false el) (fun r => Ok (fst r))) (S (length (split_string s (otxt text)))) (split_string s (otxt text)) [] [])
+              (fun '(rt, cs) =>
+              if str_eqb (otxt text) rt then Ok (text, kids)
+              else bind (mapM (fun c => bind (U' true c) (fun r => Ok (fst r))) cs) (fun cs' => Ok (ornone rt, cs' ++ kids)))
+          end = Ok (text1, kids1)).
+  { destruct (otxt text) as [|c0 r0]; [exact H1|].
+    apply bind_ok_inv in H1. destruct H1 as ([rt cs] & Ha & H1). rewrite (MS _ _ Ha). cbn [bind].
+    destruct (str_eqb (c0 :: r0) rt); [exact H1|].
+    apply bind_ok_inv in H1. destruct H1 as (cs' & Hb & H1).
+    rewrite (mapM_mono _ _ _ _ _ _ (M1 true) Hb). exact H1. }
+  rewrite H1'. cbn [bind].
+  apply bind_ok_inv in H. destruct H as (kk & H2 & H). rewrite (mapM_mono _ _ _ _ _ _ M2 H2). cbn [bind].
+  destruct tail as [|c1 r1]; [exact H|].
+  apply bind_ok_inv in H. destruct H as ([rt cs] & Ha & H). rewrite (MS _ _ Ha). cbn [bind].
+  destruct (str_eqb (c1 :: r1) rt); [exact H|]. destruct hp; [|exact H].
+  apply bind_ok_inv in H. destruct H as (cs' & Hb & H). rewrite (mapM_mono _ _ _ _ _ _ (M1 true) Hb). exact H.
+Qed.
+
+Lemma undo_element_mono1 : forall s f hp e r, undo_element f s hp e = Ok r -> undo_element (S f) s hp e = Ok r.
+Proof.
+  intros s. induction f as [|f IH]; intros hp e r H; [discriminate|].
+  rewrite undo_element_body in *. eapply ubody_mono; [|exact H]. intros b x y. apply IH.
+Qed.
+Lemma undo_element_mono : forall s f f' hp e r, (f <= f')%nat -> undo_element f s hp e = Ok r -> undo_element f' s hp e = Ok r.
+Proof.
+  intros s f f' hp e r L H. induction L as [|f' L IH]; [exact H | apply undo_element_mono1; exact IH].
+Qed.
+
+(* With the default fuel, undo_tree either runs out of fuel or returns the document. *)
+Theorem roundtrip_default_fuel : forall tt fmt s T s' T1 T2,
+  ph_wf tt fmt s -> no_pua T -> room tt fmt s T -> do_tree tt fmt s T = (s', T1) ->
+  undo_tree s' T1 = Ok T2 -> tree_equiv T2 T.
+Proof.
+  intros tt fmt s T s' T1 T2 W NP R E U.
+  destruct (roundtrip_fuel tt fmt s T s' T1 W NP R E (default_fuel s' T1 + S (xsize T))%nat ltac:(lia)) as (T3 & U3 & EQ).
+  unfold undo_tree, undo_tree_fuel in *.
+  apply bind_ok_inv in U. destruct U as (r & Ur & U).
+  assert (L : (default_fuel s' T1 <= default_fuel s' T1 + S (xsize T))%nat) by lia.
+  rewrite (undo_element_mono s' _ _ _ _ _ L Ur) in U3.
+  cbn [bind] in U3. congruence.
 Qed.
